@@ -26,6 +26,9 @@ func VerifC06Source() {
 		junk = nd.StringFrom(2, "{%}- e\n") + "{" + nd.StringFrom(1, "{%}- e\n") // bytes chosen by the solver
 	}
 	src := "a" + open + junk + cl + "b"
+	// an engine with other delimiters has parsed raw and comment blocks before: no shared scanner state
+	oo, oerr := NewEngine().Delims("<<", ">>", "<%", "%>").ParseAndRenderString("p<% raw %>{% if <% endraw %>q<% comment %><% if <% endcomment %>", Bindings{})
+	nd.Assert(oerr == nil && oo == "p{% if q", "accepted-iff-closed")
 	out, err := vRender(src, Bindings{})
 	closed := closeK < 5
 	nd.Assert((err == nil) == closed, "accepted-iff-closed")
